@@ -62,7 +62,7 @@ theorem lrepr_len_zero (s : LState I K) (L : List Route) (h : LRepr IL keysOf s 
 
 /-- The fold of `lInsert` over the keys of the inserted route: buckets of the keys already
 processed (`done`) contain the new route. -/
-theorem upsert_fold (r : Route) (L : List Route) (hU : UIds (r :: L)) (ks : List K) :
+theorem upsert_fold (r : Route) (L : List Route) (hU : UIds (r :: L)) (hok : IL.okIns r) (ks : List K) :
     ∀ (m : List (K × I.M)) (done : List K),
       (akeys m).Nodup →
       (∀ k b, alookup k m = some b →
@@ -102,7 +102,7 @@ theorem upsert_fold (r : Route) (L : List Route) (hU : UIds (r :: L)) (ks : List
             rw [List.filter_eq_nil_iff]; intro x hx; simp [this x hx]
           simp only [Option.getD_none, hnil]
           exact IL.repr_insert _ _ r IL.repr_empty (fun a ha b hb _ => by
-            simp at ha hb; rw [ha, hb])
+            simp at ha hb; rw [ha, hb]) hok
         | some b0 =>
           simp only [Option.getD_some]
           have hb0 := hs k b0 hl
@@ -119,14 +119,14 @@ theorem upsert_fold (r : Route) (L : List Route) (hU : UIds (r :: L)) (ks : List
                 rcases List.mem_cons.mp hb with hb | hb
                 · exact hb ▸ List.mem_cons_self ..
                 · exact hb
-              exact hUk k a ha' b hb' e)
+              exact hUk k a ha' b hb' e) hok
             exact IL.repr_congr _ _ _ h2 (List.sublist_cons_self _ _) (by
               intro x hx
               rcases List.mem_cons.mp hx with hx | hx
               · exact hx ▸ List.mem_cons_self ..
               · exact hx)
           · simp only [hd, if_false] at hb0
-            exact IL.repr_insert _ _ r hb0 (hUk k)
+            exact IL.repr_insert _ _ r hb0 (hUk k) hok
       · simp only [e, if_false] at hk
         have := hs k b hk
         have hmem : (k ∈ done ++ [k0]) ↔ k ∈ done := by simp [e]
@@ -150,7 +150,7 @@ theorem filter_inKey_cons (r : Route) (L : List Route) (k : K) :
   by_cases h : k ∈ keysL keysOf r <;> simp [h]
 
 theorem lrepr_insert (s : LState I K) (L : List Route) (r : Route) (h : LRepr IL keysOf s L)
-    (hU : UIds (r :: L)) : LRepr IL keysOf (lInsert I keysOf r s) (r :: L) := by
+    (hU : UIds (r :: L)) (hok : IL.okIns r) : LRepr IL keysOf (lInsert I keysOf r s) (r :: L) := by
   unfold lInsert
   cases hk : keysOf r with
   | none =>
@@ -163,7 +163,7 @@ theorem lrepr_insert (s : LState I K) (L : List Route) (r : Route) (h : LRepr IL
         intro x hx
         rcases List.mem_cons.mp hx with hx | hx
         · exact hx ▸ List.mem_cons_self ..
-        · exact List.mem_cons_of_mem _ (List.mem_filter.mp hx).1))
+        · exact List.mem_cons_of_mem _ (List.mem_filter.mp hx).1)) hok
     · intro k b hkb
       rw [filter_inKey_cons]; simp only [hkl, List.not_mem_nil, if_false]
       exact h.some k b hkb
@@ -174,7 +174,7 @@ theorem lrepr_insert (s : LState I K) (L : List Route) (r : Route) (h : LRepr IL
   | some ks =>
     have hany : isAnyR keysOf r = false := by simp [isAnyR, hk]
     have hkl : keysL keysOf r = ks := by simp [keysL, hk]
-    have fold := upsert_fold IL keysOf r L hU ks s.map [] h.nodup
+    have fold := upsert_fold IL keysOf r L hU hok ks s.map [] h.nodup
       (by intro k b hkb; simpa using h.some k b hkb)
       (by intro k hkn; exact ⟨by simp, h.none k hkn⟩)
     simp only [List.nil_append] at fold
